@@ -63,3 +63,151 @@ func zzC14e() {
 	vf.Assert("no-panic", !panicked)
 	vf.Reach("end")
 }
+
+type zzSender struct {
+	dgrams [][]byte
+}
+
+func (s *zzSender) SendDatagram(b []byte) error {
+	c := make([]byte, len(b))
+	copy(c, b)
+	s.dgrams = append(s.dgrams, c)
+	return nil
+}
+
+// C14.a: segmentation — count, headers, bodies, returned size. P in {1,2,3}, message 0..4P+P-1 bytes.
+func zzC14a() {
+	p := 1 + vf.Choose("P", 3)
+	maxPayloadSize = p
+	n := vf.Choose("n", 5*p)
+	msg := vf.BytesN("msg", n)
+	seq := vf.U32("seq")
+	snd := &zzSender{}
+	size, err := SendTo(snd, seq, msg)
+	vf.Assert("no-error", err == nil)
+	want := n/p + 1
+	if n <= p {
+		want = 1
+	}
+	vf.Assert("count", len(snd.dgrams) == want)
+	total := 0
+	for i, d := range snd.dgrams {
+		vf.Assert("hdr-len", len(d) >= 8)
+		vf.Assert("hdr-seq", binary.BigEndian.Uint32(d[0:4]) == seq)
+		vf.Assert("hdr-max", int(binary.BigEndian.Uint16(d[4:6])) == want-1)
+		vf.Assert("hdr-idx", int(binary.BigEndian.Uint16(d[6:8])) == i)
+		body := d[8:]
+		if i < want-1 {
+			vf.Assert("body-full", len(body) == p)
+		} else {
+			vf.Assert("body-last", len(body) == n-(want-1)*p)
+		}
+		for j := range body {
+			vf.Assert("body-bytes", body[j] == msg[i*p+j])
+		}
+		total += len(d)
+	}
+	vf.Assert("size", size == total)
+	vf.Reach("end")
+}
+
+// C14.a guard: oversized messages are refused before anything is sent (production payload size).
+type zzNoSender struct{ sent int }
+
+func (s *zzNoSender) SendDatagram(b []byte) error { s.sent++; return nil }
+
+// C14.c / C14.d: reassembly in any arrival order, two messages in flight, optional loss of one datagram.
+func zzC14c()      { zzC14cd(3, 2, false) }
+func zzC14d()      { zzC14cd(3, 2, true) }
+func zzC14cLarge() { zzC14cd(4, 2, false) }
+func zzC14dLarge() { zzC14cd(4, 2, true) }
+
+func zzC14cd(segs1, segs2 int, withLoss bool) {
+	p := 1 + vf.Choose("P", 2)
+	maxPayloadSize = p
+	n1 := vf.Choose("n1", segs1*p)
+	n2 := vf.Choose("n2", segs2*p)
+	m1 := vf.BytesN("m1", n1)
+	m2 := vf.BytesN("m2", n2)
+	s1, s2 := vf.U32("seq1"), vf.U32("seq2")
+	vf.Assume(s1 != s2)
+	snd := &zzSender{}
+	_, err1 := SendTo(snd, s1, m1)
+	k1 := len(snd.dgrams)
+	_, err2 := SendTo(snd, s2, m2)
+	vf.Assume(err1 == nil && err2 == nil)
+	all := snd.dgrams
+	total := len(all)
+	lose := -1 // -1: nothing lost
+	if withLoss {
+		lose = vf.Choose("lose", total)
+	}
+	rb := &ReadBuffers{ReadBuffer: map[uint32]*ReadBuffer{}}
+	used := make([]bool, total)
+	got1, got2 := 0, 0
+	left1, left2 := k1, total-k1
+	if lose >= 0 {
+		used[lose] = true
+		if lose < k1 {
+			left1 = -1
+		} else {
+			left2 = -1
+		}
+	}
+	remaining := total
+	if lose >= 0 {
+		remaining--
+	}
+	for step := 0; step < remaining; step++ {
+		// pick any unused datagram (all arrival orders)
+		var cand []int
+		for i := range all {
+			if !used[i] {
+				cand = append(cand, i)
+			}
+		}
+		pick := cand[vf.Choose("pick"+string(rune('a'+step)), len(cand))]
+		used[pick] = true
+		out, done, err := rb.Receive(all[pick])
+		vf.Assert("recv-no-error", err == nil)
+		if pick < k1 {
+			left1--
+			if left1 == 0 {
+				vf.Assert("m1-done", done && bytes.Equal(out, m1))
+				got1++
+			} else {
+				vf.Assert("m1-early", !done && out == nil)
+			}
+		} else {
+			left2--
+			if left2 == 0 {
+				vf.Assert("m2-done", done && bytes.Equal(out, m2))
+				got2++
+			} else {
+				vf.Assert("m2-early", !done && out == nil)
+			}
+		}
+	}
+	if lose < 0 {
+		vf.Assert("both-delivered-once", got1 == 1 && got2 == 1)
+		vf.Assert("buffers-empty", len(rb.ReadBuffer) == 0)
+	} else if lose < k1 {
+		vf.Assert("lost-m1-never-delivered", got1 == 0 && got2 == 1)
+	} else {
+		vf.Assert("lost-m2-never-delivered", got1 == 1 && got2 == 0)
+	}
+	vf.Reach("end")
+}
+
+func zzC14aGuard() {
+	n := vf.Int("n")
+	vf.Assume(n >= 0 && n < 1<<28)
+	vf.Assume(n/maxPayloadSize > 65535)
+	// a message of n bytes whose content is irrelevant: only the guard is exercised
+	msg := vf.OpaqueBytes(n)
+	snd := &zzNoSender{}
+	size, err := SendTo(snd, vf.U32("seq"), msg)
+	vf.Assert("refused", err != nil && size == 0)
+	vf.Assert("nothing-sent", snd.sent == 0)
+	vf.Reach("end")
+}
